@@ -6,6 +6,8 @@ from ..ref import alt as ralt
 from ..ref import bits
 
 LEVEL = "exploration"
+TECHNIQUE = 'runtime monitoring: exhaustive execution of all 8192 / 4096 codes against a table produced by forward Gillham/Q/M encoders, single-bit non-interference probes'
+LEVEL_TEXT = 'The code domain is finite and enumerated completely on every run (exhaustive: true for the altitude-field sub-domain); the other frame bits are sampled.'
 EXHAUSTIVE = True
 LEVEL_RULE = (
     "All 8192 thirteen-bit codes through common.altitude, common.altcode (DF0/4/16/20 frames, random other bits), "
